@@ -231,6 +231,14 @@ class ForestScenario(explore.Scenario):
         self.attr_ops = attr_ops
         self.idx_wide = idx_wide
         self.live_ops = live_ops
+        # Operands that fail part-way (an element that is no node, a
+        # generator that raises, a non-iterable second operand) are OUTSIDE
+        # the quantifier of C16 ("arguments drawn from members, non-members
+        # and nodes owned elsewhere"); on the unchanged tree some of them do
+        # leave a half-applied bulk operation behind.  Off by default; kept
+        # for experiments (MC_FAILING_OPERANDS=1).
+        import os as _os
+        self.failing_operands = bool(_os.environ.get("MC_FAILING_OPERANDS"))
         self.save_load_prefix = save_load_prefix
 
     # ------------------------------------------------------------ building
@@ -331,6 +339,14 @@ class ForestScenario(explore.Scenario):
                 if elems and self.live_ops:
                     # one-shot iterators as arguments
                     out.append(["set", owner, field, "update_gen", [elems[:2]]])
+                    # bulk operations whose operand fails part-way: an
+                    # ill-typed element, a generator that raises, a second
+                    # operand that is not iterable
+                    if self.failing_operands:
+                        for x in elems[:2]:
+                            for m in ("update_badelem", "update_raise",
+                                      "update_noniter", "ior_badelem"):
+                                out.append(["set", owner, field, m, x])
                 if len(elems) >= 2:
                     out.append(["set", owner, field, "update",
                                 [[elems[0]], [elems[1]]]])
@@ -390,6 +406,10 @@ class ForestScenario(explore.Scenario):
                         if n:
                             out.append(["mods", ir, "iter_setitem", n - 1, m])
             if self.live_ops and mods:
+                for m in (mods[:2] if self.failing_operands else ()):
+                    out.append(["mods", ir, "extend_badelem", m])
+                    out.append(["mods", ir, "extend_raise", m])
+                    out.append(["mods", ir, "setslice_badelem", m])
                 out.append(["mods", ir, "extend_gen", mods[:2]])
                 out.append(["mods", ir, "setslice_gen", 0, 1, mods[:2]])
             if self.live_ops:
@@ -484,6 +504,10 @@ class ForestScenario(explore.Scenario):
             return True
         if op[0] == "ctor":
             return False
+        if op[0] in ("set", "mods") and str(
+                op[3] if op[0] == "set" else op[2]).endswith(
+                    ("_badelem", "_raise", "_noniter")):
+            return False  # which prefix is applied is not prescribed
         f = w.model.copy()
         try:
             self.model_apply(w, f, op, None, dry=True)
@@ -525,6 +549,9 @@ class ForestScenario(explore.Scenario):
             _, owner, field, m, arg = op
             ek = dict(FIELDS[w.kind[owner]])[field]
             cur = set(f.children(owner, ek))
+            if m in ("update_badelem", "update_raise", "update_noniter",
+                     "ior_badelem"):
+                return {"exc": "ANY"}
             if isinstance(arg, dict):
                 arg = sorted(f.children(arg["live"], ek))
             elif m == "update":
@@ -591,6 +618,8 @@ class ForestScenario(explore.Scenario):
             ret = ("none", None)
             op = [list(f.mods[a["live"]]) if isinstance(a, dict) else a
                   for a in op]
+            if m in ("extend_badelem", "extend_raise", "setslice_badelem"):
+                return {"exc": "ANY"}
             try:
                 if m == "append":
                     sh.append(op[3])
@@ -679,6 +708,19 @@ class ForestScenario(explore.Scenario):
                     return s.pop(), None
                 if m == "clear":
                     return s.clear(), None
+                if m in ("update_badelem", "ior_badelem", "update_raise",
+                         "update_noniter"):
+                    def boom():
+                        yield O[arg]
+                        raise RuntimeError("operand failed")
+
+                    if m == "update_badelem":
+                        return s.update([O[arg], None]), None
+                    if m == "ior_badelem":
+                        return operator.ior(s, {O[arg], None}), None
+                    if m == "update_raise":
+                        return s.update([O[arg]], boom()), None
+                    return s.update([O[arg]], 5), None
                 if m == "update_gen":
                     return s.update(*[(O[x] for x in it) for it in arg]), None
                 if m == "update":
@@ -728,6 +770,17 @@ class ForestScenario(explore.Scenario):
                         L[op[3]] = O[op[4]]
                     seen_ += list(it)
                     return [w.name_of(x) for x in seen_], None
+                if m == "extend_badelem":
+                    return L.extend([O[op[3]], None]), None
+                if m == "setslice_badelem":
+                    L[0:0] = [O[op[3]], None]
+                    return None, None
+                if m == "extend_raise":
+                    def boom2():
+                        yield O[op[3]]
+                        raise RuntimeError("operand failed")
+
+                    return L.extend(boom2()), None
                 if m == "extend":
                     return L.extend(objs(op[3])), None
                 if m == "extend_gen":
@@ -892,6 +945,17 @@ class ForestScenario(explore.Scenario):
                          (op[2] if op[0] == "mods" else ""))
         f, problems = self.extract(w)
         w.cache_extract = (f, problems)
+        if exp["exc"] == "ANY":
+            # an operand that fails part-way: the call must raise (its own
+            # TypeError / AttributeError or the operand's exception) and must
+            # leave everything consistent (checked below); which prefix of
+            # the operand was applied is not prescribed
+            if exc is None:
+                v.append(("C16/failing-operand-accepted:%s" % tag,
+                          "op %s returned normally" % (op,)))
+                exp = {"exc": None, "ret": ("any", None)}
+            else:
+                exp = {"exc": exc}
         # --- C16: return value / exception refinement of the built-in
         if exp["exc"] != exc:
             v.append(("C16/exception:%s:expected=%s:got=%s:%s"
@@ -917,6 +981,8 @@ class ForestScenario(explore.Scenario):
                 ok = w.name_of(res) == rv
             elif rk == "seq":
                 ok = res == rv
+            elif rk == "any":
+                ok = True
             if not ok:
                 v.append(("C16/return:%s" % tag,
                           "op %s returned %r, expected %s %r"
